@@ -144,7 +144,8 @@ public:
         for (std::size_t i = 0; i != size; ++i)
         {
             RandomNumberEngine rne;
-            in >> rne;
+            // some engines (libstdc++'s linear congruential ones) do not skip leading white space
+            in >> std::ws >> rne;
             generators_.push_back(rne);
         }
     }
